@@ -64,10 +64,18 @@ func (core *JApiCore) processPasteDirective(paste *directive.Directive) *jerr.JA
 		return paste.KeywordError(jerr.MacroNotFound)
 	}
 
+	// A chain of nested pastes that is longer than the number of macros passes through some macro twice.
+	if core.pasteDepth >= len(core.macro) {
+		return paste.KeywordError(jerr.RecursionIsProhibited)
+	}
+
 	if je := core.collectRulesFromDirectives(macro.Children); je != nil {
 		return je
 	}
 
 	// macro.Children != nil - checked above
-	return core.processPasteDirectiveList(macro.Children)
+	core.pasteDepth++
+	je := core.processPasteDirectiveList(macro.Children)
+	core.pasteDepth--
+	return je
 }
